@@ -933,6 +933,7 @@ Proof.
         split; [congruence|]. split; auto. intros k E2. discriminate.
       + intro E. inversion E. subst. split; [congruence|]. split; [congruence|]. intros k E2. discriminate. }
   fold T. destruct T as [[i1 s1'] s2'] eqn:ET. destruct (F i1 s1' s2' eq_refl) as (F1 & F2 & F3). clear F.
+  cbv beta iota zeta.
   (* first the receiver's iterator ... *)
   assert (S1 : exists wa c1',
             (match s1' with
